@@ -223,7 +223,53 @@ func subsetReason(fs []verifhook.VMFunc) string {
 			if op == opCallFunc || op == opCallNative {
 				skip = true
 			}
+			// operands that select something outside the model
+			intKind := func(i int8) bool {
+				ix := int(uint8(i))
+				return ix < len(f.Types) && reflect.Kind(f.Types[ix].Kind) >= reflect.Int && reflect.Kind(f.Types[ix].Kind) <= reflect.Uintptr
+			}
+			switch op {
+			case opConvertInt, opConvertUint:
+				if !intKind(in[2]) {
+					return "convert-to-non-integer"
+				}
+			case opTypify:
+				ix := int(uint8(in[1]))
+				if ix >= len(f.Types) {
+					return "typify-type"
+				}
+				if k := reflect.Kind(f.Types[ix].Kind); !(k == reflect.Bool || k == reflect.String || intKind(in[1])) || strings.Contains(f.Types[ix].Text, ".") {
+					return "typify:" + f.Types[ix].Text
+				}
+			case opLen:
+				if in[1] != 2 {
+					return "len-of-non-string"
+				}
+			case opMove:
+				if in[1] == 1 {
+					return "move-float"
+				}
+			case opLoad:
+				if uint8(in[1])>>6 == 1 {
+					return "load-float"
+				}
+			}
 		}
 	}
 	return ""
+}
+
+// runScriggoBuildOnly builds and dumps without running.
+func runScriggoBuildOnly(src string) *scResult {
+	r := &scResult{}
+	var out strings.Builder
+	var prog *scriggo.Program
+	r.hostPanic = PanicText(func() {
+		prog, r.buildErr = buildScriggo(src, &out)
+	})
+	if r.hostPanic != "" || r.buildErr != nil {
+		return r
+	}
+	r.funcs = verifhook.DumpFunctions(prog.VerifFunction())
+	return r
 }
